@@ -239,6 +239,10 @@ def run_bfs(arg):
             r.transitions.add((explorer.digest(k), explorer.digest(a), explorer.digest(nk)))
 
         res = B.bfs([tuple(prefix)], build, enabled, lambda w: w.key(), on_state, depth, bisim=True, on_transition=on_transition)
+        if res["bisim_mismatches"]:
+            if not r.violations:
+                raise B.BisimulationError(res["bisim_mismatches"][0])
+            r.count("bisimulation_mismatches_explained_by_violations", len(res["bisim_mismatches"]))
         r.count("histories", res["histories"])
         r.count("bisim_checked_states", res["bisim_checked"])
         r.count("bfs_runs")
